@@ -178,5 +178,38 @@ func corpus() []Case {
 		h := []Step{call(iB, 0, 1999), call(iB, 0, 2000), call(iB, 0, 1999), call(iB, 1, 1), call(iB, 2, 1998), call(iB, 2, 1999), call(iA, 0, 1998), call(iA, 0, 1999), call(iB, 0, 5)}
 		cs = append(cs, Case{W: w, H: h})
 	}
+	// 4. caller identity on every route: a host function that closes / exits "the calling module" is reached by a
+	// direct call, through the table, through a local wrapper and through a wrapper in the table - after an
+	// instruction that may reach the host (memory.grow) and after a detour into ANOTHER instance (direct or through
+	// a local wrapper) that itself talks to the host, all in one basic block.  The module that goes down must be the
+	// one whose code made the call; the library it visited on the way stays up.
+	id := 400
+	for _, pre := range []string{"", "grow0.store8"} {
+		for _, detour := range []string{"none", "", "wrapped"} {
+			for _, lib := range []string{"host-ok", "grow0"} {
+				for _, host := range []string{"ex", "cl"} {
+					for _, route := range append([]string{""}, callRoutes...) {
+						libBody := []Instr{hostI("a", 0, "ok", X), ag(0)}
+						if lib == "grow0" {
+							libBody = []Instr{{G: Guard{K: "a"}, Op: "st", A: 9, B: 5, Variant: "grow0.store8"}, ag(0)}
+						}
+						body := []Instr{{G: Guard{K: "a"}, Op: "st", A: 3, B: 8, Variant: pre}}
+						if detour != "none" {
+							c := callI("a", 0, iB, 0, X)
+							c.Variant = detour
+							body = append(body, c)
+						}
+						h := hostI("a", 0, host, C(7))
+						h.Variant = route
+						body = append(body, h, ag(1))
+						w := World{ID: id, Insts: [][]Func{{{Body: libBody}}, {{Body: []Instr{ag(0)}}}, {{Body: body}, {Body: []Instr{ag(0)}}}, {{Body: []Instr{ag(0)}}}},
+							StartC: []uint32{0}, Engines: both, Note: "caller identity: pre=" + pre + " detour=" + detour + " lib=" + lib + " host=" + host + " route=" + route}
+						cs = append(cs, Case{W: w, H: []Step{call(iB, 0, 1), call(iA, 0, 2), call(iB, 0, 3), call(iC, 0, 4), call(iA, 1, 5), call(iB, 0, 6)}})
+						id++
+					}
+				}
+			}
+		}
+	}
 	return cs
 }
